@@ -24,7 +24,7 @@ VAL = {
     "sa": {"k": [1, 2.5, "ü\U0001f600", None, True], "n": -0.0},
     "mf": ["multi\nline", {"a": {"b": []}}, 2 ** 53 + 1],
     "x": 7, "y": "why", "z": [0, False, ""],
-    "e0": "from E0", "e1": ["from", "E1"], "e2": {"from": "E2"},
+    "e0": "from E0", "e1": ["from", "E1"], "e2": {"from": "E2"}, "d2": "from D2",
 }
 RESERVED_COLLISIONS = {"timestamp": "not-a-float", "task_level": "bogus", "task_uuid": 5}
 
@@ -98,6 +98,35 @@ class ExtRaise(Exception):
     pass
 
 
+class ExtRaiseInner(ExtRaise):
+    """what the failing extractor raises: an exception the very same extractor is registered for"""
+
+
+class EmptyStrBadRepr(Exception):
+    def __str__(self):
+        return ""
+
+    def __repr__(self):
+        raise RuntimeError("repr() of this exception raises")
+
+
+class BadInit(Exception):
+    """cannot be copied or pickled: its constructor needs two arguments, its args hold one"""
+
+    def __init__(self, a, b):
+        Exception.__init__(self, "only one")
+
+
+class SerBaseErr(BaseException):
+    """raised by a field serializer: not an Exception subclass (like CancelledError / GeneratorExit)"""
+
+
+class Uncopyable(object):
+    def __init__(self):
+        self.lock = threading.Lock()
+        self.gen = (i for i in range(3))
+
+
 class SerErr(Exception):
     pass
 
@@ -112,14 +141,17 @@ class DestErrBadStr(Exception):
 
 
 def _raising_extractor(e):
-    raise ZeroDivisionError("extractor failed")
+    if len(str(e)) % 2:
+        raise ZeroDivisionError("extractor failed")
+    raise ExtRaiseInner("the extractor fails with an exception it is itself registered for")
 
 
 register_exception_extractor(ExtRaise, _raising_extractor)
 
 EXC_WITNESSES = [lambda: ValueError("boom"), lambda: KeyboardInterrupt(), lambda: GeneratorExit(),
                  lambda: asyncio.CancelledError(), lambda: BadStr(), lambda: SystemExit(3),
-                 lambda: KeyError("k"), lambda: FalsyExc("falsy"), lambda: EmptyLenExc(), lambda: NoModuleExc("nomod")]
+                 lambda: KeyError("k"), lambda: FalsyExc("falsy"), lambda: EmptyLenExc(), lambda: NoModuleExc("nomod"),
+                 lambda: EmptyStrBadRepr(), lambda: BadInit(1, 2), lambda: Exception()]
 DEST_ERRS = [lambda: DestErr("dest down"), lambda: DestErrBadStr(), lambda: TypeError("t"),
              lambda: NoModuleExc("nomod"), lambda: FalsyExc("f"), lambda: BadStr()]
 
@@ -157,6 +189,9 @@ class Env:
         self.E0 = type("E0", (Exception,), {})
         self.E1 = type("E1", (self.E0,), {})
         self.E2 = type("E2", (self.E1,), {})
+        self.D1 = type("D1", (Exception,), {})
+        self.D2 = type("D2", (self.D1,), {})
+        self.M3 = type("M3", (self.E0, self.D2), {})
         self.hostile_n = self.wit
         self.T = ActionType("T", [Field("x", self.serializer, "x")], [Field("y", self.serializer, "y")], "typed action")
         self.M = MessageType("M", [Field("x", self.serializer, "x")], "typed message")
@@ -196,6 +231,8 @@ class Env:
                 why = why or "required_keys"
         elif "message_type" in msg:
             ty, st, k = msg["message_type"], "", "msg"
+            if ty == "M" and isinstance(msg.get("x"), dict) and isinstance(msg["x"].get("ser"), Uncopyable):
+                ty = "Mh"
             if "action_status" in msg:
                 why = why or "required_keys"
         else:
@@ -214,12 +251,14 @@ class Env:
         f = sorted(n for n in names if n not in GLOBALS)
         # values
         if not why:
-            typed = ty in ("T", "M")
+            typed = ty in ("T", "M", "Mh")
             for n in names:
                 v = msg[n]
                 if n in GLOBALS:
                     if not any(_same(v, val) for val in GLOBALS[n]):
                         why = "global_field_value"
+                elif n == "x" and ty == "Mh":
+                    pass
                 elif n in ("x", "y") and typed:
                     if _same(v, {"ser": {"ser": VAL[n]}}):
                         why = "serialized_twice"
@@ -234,8 +273,11 @@ class Env:
                     if not _same(v, VAL[n]):
                         why = "field_value"
                 elif n == "exception":
-                    if not (isinstance(v, str) and "." in v):
+                    if not (isinstance(v, str) and "." in v) or (k == "end" and v == "bogus.Name"):
                         why = "exception_name"
+                elif n == "reason" and k == "end":
+                    if not isinstance(v, str) or v == "from the extractor":
+                        why = "exception_text"
                 elif n in ("reason", "traceback", "message", "log_level", "logger"):
                     if not isinstance(v, str):
                         why = "text_field"
@@ -284,11 +326,20 @@ class Env:
         n = self.sercount
         self.sercount += 1
         fail = bool(self.smask[n]) if n < len(self.smask) else False
+        fail = bool(fail)
         if self.recording:
             self.ev.append({"e": "ser", "fail": fail})
         if fail:
+            if (n + self.wit) % 3 == 0:
+                raise SerBaseErr("serializer %d fails with a non-Exception" % n)
             raise SerErr("serializer %d fails" % n)
         return {"ser": v}
+
+    def freeze(self):
+        """The program is over: stop recording and keep what the files hold NOW (unwinding open blocks logs more)."""
+        self.recording = False
+        if getattr(self, "snapshot", None) is None:
+            self.snapshot = {d: f.getvalue() for d, f in self.files.items()}
 
     def collide(self):
         """Occasionally the application uses field names Eliot reserves; Eliot's own values must win."""
@@ -304,8 +355,10 @@ class Env:
             return EXC_WITNESSES[self.wit % len(EXC_WITNESSES)]()
         if o in ("x0", "x1", "x2"):
             return {"x0": self.E0, "x1": self.E1, "x2": self.E2}[o]("instance of " + o)
+        if o == "x3":
+            return self.M3("instance of M3(E0, D2)")
         if o == "extraise":
-            return ExtRaise("extractor will fail")
+            return ExtRaise("extractor will fail" + "!" * (self.wit % 2))
         raise HarnessError("unknown outcome %r" % (o,))
 
 
@@ -389,7 +442,7 @@ class Runner:
                 # the call that should have returned this action was aborted by a non-Exception from a destination:
                 # the program holds no such object; it ends here
                 self.env.abort = True
-                self.env.recording = False
+                self.env.freeze()
                 self.env.done.put(("op", self.c))
                 raise _Abort()
             if op["op"] == "Exit":
@@ -458,6 +511,9 @@ class Runner:
         name = op["op"]
         self.begin_op(op)
         v = "ok"
+        if env.prog.get("reseed") and (env.wit + len(env.ev)) % 4 == 0:
+            import random as _random
+            _random.seed(20261002)            # applications re-seed the global generator (per test, per experiment, ...)
         try:
             if name == "StartAction":
                 if op["ty"] == "T":
@@ -492,6 +548,8 @@ class Runner:
                     env.N.log(n=3)
                 elif op["ty"] == "N0":
                     env.N.log()
+                elif op["ty"] == "Mh":
+                    env.M.log(x=Uncopyable())
                 elif op["ty"] == "h":
                     env.hostile_n += 1
                     log_message(message_type="h", hv=HOSTILE[env.hostile_n % len(HOSTILE)]())
@@ -613,10 +671,13 @@ class Runner:
                 env.D.remove(env.dest[op["d"]])
             elif name == "Register":
                 k = op["k"]
-                cls = {"E0": env.E0, "E1": env.E1, "E2": env.E2}[k]
+                cls = {"E0": env.E0, "E1": env.E1, "E2": env.E2, "D2": env.D2}[k]
                 fld = k.lower()
-                # extractors may well return names Eliot itself uses; the framework's own values win
-                register_exception_extractor(cls, lambda e, fld=fld: {fld: VAL[fld], "reason": "from the extractor"})
+                # extractors may well return names Eliot itself uses; for a failed action the framework's own values win
+                extra = {"reason": "from the extractor"}
+                if k in ("E2", "D2"):
+                    extra.update({"exception": "bogus.Name", "action_status": "recovered"})
+                register_exception_extractor(cls, lambda e, fld=fld, extra=extra: dict(extra, **{fld: VAL[fld]}))
             elif name == "AddGlobal":
                 env.D.addGlobalFields(**{op["f"]: GLOBALS[op["f"]][op.get("v", 1) - 1]})
             else:
@@ -736,8 +797,7 @@ def execute(prog, want_env=False):
         if what == "exit" or env.error:
             env.error = env.error or "context %d ended early" % c
             break
-    env.recording = False
-    env.snapshot = {d: f.getvalue() for d, f in env.files.items()}
+    env.freeze()
     for r in env.runners.values():
         r.inbox.put(None)
     for r in env.runners.values():
